@@ -122,6 +122,15 @@ example :
     2 A → B with rate `k·A·A` and the non-involutive 3-cycle -/
 example : PermMap 3 [1, 2, 0] ∧ ¬ InvolutiveMap 3 [1, 2, 0] := by decide
 
+/-- the set of isotopomers `C16_marginal` sums over — those of `x` labelled at position `i` — is
+    what the public query `LabelMapper.get_isotopomers_of_at_position(x, i)` returns -/
+theorem C16_marginal_set_is_query (lv : List (Name × Nat)) (x : Name) (n i : Nat)
+    (h : lv.lookup x = some n) (hi : i < n) :
+    isotopomersAtPosition lv x [i] = .ok (labelledAt x n i) := by
+  have hn : n ≠ 0 := by omega
+  have hd : decide (n ≤ i) = false := by simp; omega
+  simp [isotopomersAtPosition, labelCount, h, bind, Except.bind, pure, Except.pure, hd, hn, labelledAt]
+
 /-- **uniform enrichment** (any permutation map): if every position and the
     external pool have enrichment `e`, one base reaction contributes
     (net stoichiometry of the compound) · e · flux / pool to each of the compound's positions … -/
